@@ -186,13 +186,29 @@ struct Del : BuildEngineDelegate, basic::ExecutionQueueDelegate {
 static std::vector<int> ints(const std::string& s) { std::vector<int> r; if (s.empty()) return r; for (auto& x : split(s, ',')) if (!x.empty()) r.push_back(atoi(x.c_str())); return r; }
 
 static void dump_deps(BuildEngine* e, const std::string& wd) {
+  // dumpGraphToFile prints keys with "%s": a key is cut at its first NUL and may contain quotes or newlines, so the file is parsed
+  // against the known key spellings (longest first) instead of line by line.
   std::string path = wd + "/graph.dot"; e->dumpGraphToFile(path);
-  std::ifstream g(path); std::string l; std::map<int, std::string> dl; std::vector<int> order;
-  while (std::getline(g, l)) {
-    auto p = l.find("\" -> \""); if (p == std::string::npos) continue;
-    int a = kid(l.substr(1, p - 1)), b = kid(l.substr(p + 6, l.size() - p - 7));
-    if (!dl.count(a)) order.push_back(a);
-    dl[a] += " " + std::to_string(b);
+  std::ifstream g(path, std::ios::binary); std::stringstream ss; ss << g.rdbuf(); std::string c = ss.str();
+  std::vector<std::pair<std::string, int>> printed; std::set<int> seen;
+  std::set<int> all; for (auto& kv : g_pending) all.insert(kv.first); for (auto& kv : g_defs) all.insert(kv.first); for (auto& kv : g_names) all.insert(kv.first);
+  for (int k : all) { std::string n = kname(k); printed.push_back({n.substr(0, n.find('\0')), k}); }
+  std::sort(printed.begin(), printed.end(), [](const std::pair<std::string, int>& a, const std::pair<std::string, int>& b) {
+    return a.first.size() != b.first.size() ? a.first.size() > b.first.size() : a.second < b.second; });
+  for (size_t i = 0; i + 1 < printed.size(); i++) for (size_t j = i + 1; j < printed.size(); j++)
+    if (printed[i].first == printed[j].first) { ev("deps-unavailable"); return; }       // two keys print alike: the dump is ambiguous
+  auto match = [&](size_t pos, const std::string& tail, int& id, size_t& next) {
+    for (auto& pr : printed) { std::string want = "\"" + pr.first + tail;
+      if (c.compare(pos, want.size(), want) == 0) { id = pr.second; next = pos + want.size(); return true; } }
+    return false; };
+  std::map<int, std::string> dl; std::vector<int> order;
+  size_t pos = c.find("\n\n"); pos = pos == std::string::npos ? c.size() : pos + 2;
+  while (pos < c.size() && c[pos] != '}') {
+    int a, b; size_t nx, nx2;
+    if (c[pos] == '\n') { pos++; continue; }
+    if (match(pos, "\" -> ", a, nx) && match(nx, "\"\n", b, nx2)) { if (!dl.count(a)) order.push_back(a); dl[a] += " " + std::to_string(b); pos = nx2; continue; }
+    if (match(pos, "\"\n", a, nx)) { pos = nx; continue; }
+    ev("deps-unavailable"); return;
   }
   std::sort(order.begin(), order.end());
   for (int a : order) ev("deps %d%s", a, dl[a].c_str());
